@@ -27,6 +27,7 @@ pub fn def() -> PropDef {
 
 pub fn profile() -> Profile {
     Profile {
+        ladder_prologue_permille: 25,
         replicas: (2, 5),
         events: (10, 140),
         w_probe: 3,
